@@ -1086,6 +1086,20 @@ fn gen_items(rng: &mut Rng, vers: &[u64]) -> Vec<GenItem> {
                     for k in 0..parts {
                         items.push(GenItem { text: format!("o:{site}:{v}:p{k}of{parts}"), site, vs: (v, v) });
                     }
+                    // the same version also travels in other cuts (another peer's chunking, the complete
+                    // changeset): offers that OVERLAP what was seen without being covered by it, e.g. a
+                    // changeset bridging two seen chunks across an unseen one (seeded change C10-1)
+                    if rng.chance(1, 2) {
+                        items.push(GenItem { text: format!("o:{site}:{v}:all"), site, vs: (v, v) });
+                    }
+                    if rng.chance(1, 3) {
+                        let parts2 = if parts == 2 { 3 } else { parts - 1 };
+                        for k in 0..parts2 {
+                            if rng.chance(2, 3) {
+                                items.push(GenItem { text: format!("o:{site}:{v}:p{k}of{parts2}"), site, vs: (v, v) });
+                            }
+                        }
+                    }
                 }
             }
         }
